@@ -88,6 +88,13 @@ def do_query(doc, q, r):
             if kind == 'geometry':
                 return (o.original.id, canon(o.matrix), [canon(p.vertex) for p in o.primitives()])
             return (o.original.id, canon(getattr(o, 'position', None)), canon(getattr(o, 'direction', None)))
+        if r.random() < 0.3:
+            # a traversal that is started and dropped part-way (a `break`, an exception in the caller's loop) is a read-only operation, too
+            for s in doc.scenes:
+                it = iter(s.objects(kind))
+                for _ in range(r.randint(1, 2)):
+                    next(it, None)
+                del it
         out = []
         for s in doc.scenes:
             for o in s.objects(kind):
